@@ -207,7 +207,16 @@ def run(ctx):
         if not sites:
             continue
         cfg = cfg_of(f)
-        sites.sort(key=lambda c: (c.lineno, c.col_offset))
+        # program order (pre-order of the syntax tree, not line numbers: normalisation may copy statements)
+        order = {}
+
+        def number(n):
+            order[id(n)] = len(order)
+            for c in ast.iter_child_nodes(n):
+                number(c)
+
+        number(f.node)
+        sites.sort(key=lambda c: order.get(id(c), 0))
         first = sites[0]
         n_sel += 1
         test = _enclosing_test(a, f, first)
